@@ -7,7 +7,7 @@ seed=$1; pid=$2; shift 2
 tmp=$(mktemp -d /tmp/seedrun_XXXX)
 cp -r /repo/spatialpandas "$tmp/"
 ( cd "$tmp" && patch -p1 -s < "$seed/patch.diff" ) || { echo "PATCH FAILED"; rm -rf "$tmp"; exit 2; }
-cd /verif && VERIF_REPO="$tmp" ./check "$pid" --no-proof "$@" 2>&1 | tail -8
+cd /verif && VERIF_OUT_DIR="$tmp/out" VERIF_REPO="$tmp" ./check "$pid" --no-proof "$@" 2>&1 | tail -8
 rc=${PIPESTATUS[0]}
 rm -rf "$tmp"
 exit $rc
